@@ -1,5 +1,4 @@
-import H2V.Lemmas.HpackDecInt
-import H2V.Lemmas.HpackDecTable
+import H2V.Lemmas.HpackDecLit
 /-
   One iteration of the `while let Some(ty) = peek_u8(src)` loop of `Decoder::decode` as a function
   (`step`), so that every loop property is a property of one step plus an induction on the fuel.
@@ -95,7 +94,7 @@ theorem decodeLoop_succ (fuel : Nat) (d : Decoder) (c : Bool) (buf : Bytes) (acc
         cases c with
         | false => rfl
         | true =>
-          simp only [Bool.not_eq_true, Bool.true_eq_false, if_false]
+          simp only
           cases decodeInt (ty :: tl) 5 with
           | error e => rfl
           | ok r =>
@@ -107,5 +106,244 @@ theorem decodeLoop_succ (fuel : Nat) (d : Decoder) (c : Bool) (buf : Bytes) (acc
               cases d.table.setMaxSize newSize with
               | none => rfl
               | some t => simp
+
+/-! ### `Representation::load` on an octet -/
+
+/-- the RFC 7541 §6 pattern of a first octet -/
+def repOf (ty : Nat) : Rep :=
+  if ty ≥ 128 then .indexed else if ty ≥ 64 then .literalWithIndexing else if ty ≥ 32 then .sizeUpdate
+  else if ty ≥ 16 then .literalNeverIndexed else .literalWithoutIndexing
+
+def loadOpt (ty : Nat) : Option Rep := match Rep.load ty with | .ok r => some r | .error _ => none
+
+theorem loadOpt_eq : ∀ ty, ty < 256 → loadOpt ty = some (repOf ty) := by decide +kernel
+
+/-- `Representation::load` is total on octets (`InvalidRepresentation` is dead code) -/
+theorem Rep_load_eq (ty : Nat) (h : ty < 256) : Rep.load ty = .ok (repOf ty) := by
+  have := loadOpt_eq ty h
+  unfold loadOpt at this
+  split at this
+  · rename_i r hr; rw [hr]; simp only [Option.some.injEq] at this; rw [this]
+  · cases this
+
+theorem Rep_load_err (ty : Nat) (e : DErr) (h : Rep.load ty = .error e) : e = .invalidRepresentation := by
+  unfold Rep.load at h
+  repeat' split at h
+  all_goals first | (cases h; rfl) | cases h
+
+/-! ### what one step does to the decoder -/
+
+/-- the fields of the decoder that the loop never writes -/
+structure SameCfg (d d' : Decoder) : Prop where
+  lmu : d'.lastMaxUpdate = d.lastMaxUpdate
+  msu : d'.maxSizeUpdate = d.maxSizeUpdate
+  cont : d'.continuing = d.continuing
+
+theorem SameCfg.refl (d : Decoder) : SameCfg d d := ⟨rfl, rfl, rfl⟩
+
+theorem SameCfg.trans {a b c : Decoder} (h1 : SameCfg a b) (h2 : SameCfg b c) : SameCfg a c :=
+  ⟨h2.lmu.trans h1.lmu, h2.msu.trans h1.msu, h2.cont.trans h1.cont⟩
+
+theorem stepLiteral_next_inv (d : Decoder) (buf : Bytes) (index : Bool) (d' : Decoder) (c' : Bool)
+    (rest : Bytes) (emit : List Header) (h : stepLiteral d buf index = .next d' c' rest emit) :
+    ∃ hd, decodeLiteral d.table buf index = .ok (hd, rest) ∧ emit = [hd] ∧ c' = false ∧
+      d' = (if index then { d with seenField := true, table := d.table.insert hd }
+            else { d with seenField := true }) := by
+  unfold stepLiteral at h
+  simp only at h
+  split at h
+  · cases h
+  · rename_i hd rest0 hk
+    simp only [Step.next.injEq] at h
+    obtain ⟨h1, h2, h3, h4⟩ := h
+    subst h3
+    exact ⟨hd, hk, h4.symm, h2.symm, by rw [← h1]⟩
+
+theorem stepLiteral_stop_inv (d : Decoder) (buf : Bytes) (index : Bool) (d' : Decoder)
+    (tl : Bytes) (res : Except DErr Unit) (h : stepLiteral d buf index = .stop d' tl res) :
+    ∃ e, decodeLiteral d.table buf index = .error (e, tl) ∧ res = .error e ∧
+      d' = { d with seenField := true } := by
+  unfold stepLiteral at h
+  simp only at h
+  split at h
+  · rename_i e tl0 hk
+    simp only [Step.stop.injEq] at h
+    obtain ⟨h1, h2, h3⟩ := h
+    subst h2
+    exact ⟨e, hk, h3.symm, h1.symm⟩
+  · cases h
+
+/-- P1 — a continuing step: consumes at least one octet, keeps the configuration, keeps
+    `can_resize = !seen_field`, keeps the table invariant -/
+theorem step_next_props (d : Decoder) (c : Bool) (buf : Bytes) (d' : Decoder) (c' : Bool)
+    (rest : Bytes) (emit : List Header) (h : step d c buf = .next d' c' rest emit) :
+    (∃ pre, buf = pre ++ rest ∧ 1 ≤ pre.length) ∧ SameCfg d d' ∧
+    (c = !d.seenField → c' = !d'.seenField) ∧
+    (Table.Inv d.table → Table.Inv d'.table ∧
+      (d'.table.maxSize = d.table.maxSize ∨ d'.table.maxSize ≤ d.lastMaxUpdate)) := by
+  have lit : ∀ index, stepLiteral d buf index = .next d' c' rest emit →
+      (∃ pre, buf = pre ++ rest ∧ 1 ≤ pre.length) ∧ SameCfg d d' ∧
+      (c = !d.seenField → c' = !d'.seenField) ∧
+      (Table.Inv d.table → Table.Inv d'.table ∧
+        (d'.table.maxSize = d.table.maxSize ∨ d'.table.maxSize ≤ d.lastMaxUpdate)) := by
+    intro index hl
+    obtain ⟨hd, hk, -, hc, hd'⟩ := stepLiteral_next_inv _ _ _ _ _ _ _ hl
+    refine ⟨decodeLiteral_shape _ _ _ _ _ hk, ?_, ?_, ?_⟩
+    · subst hd'; cases index <;> exact ⟨rfl, rfl, rfl⟩
+    · intro _; subst hd' hc; cases index <;> rfl
+    · intro hi
+      subst hd'
+      cases index
+      · exact ⟨hi, Or.inl rfl⟩
+      · exact ⟨insert_preserves_inv _ _ hi, Or.inl (insert_maxSize _ _ hi.sizeOk)⟩
+  unfold step at h
+  cases buf with
+  | nil => cases h
+  | cons ty tl0 =>
+    simp only at h
+    split at h
+    · cases h
+    · split at h
+      · cases h
+      · rename_i index rest0 hdi
+        split at h
+        · cases h
+        · simp only [Step.next.injEq] at h
+          obtain ⟨h1, h2, h3, h4⟩ := h
+          subst h1 h2 h3
+          obtain ⟨pre, hpre, hl, -⟩ := decodeInt_shape _ _ _ _ hdi
+          exact ⟨⟨pre, hpre, hl⟩, ⟨rfl, rfl, rfl⟩, fun _ => rfl, fun hi => ⟨hi, Or.inl rfl⟩⟩
+    · exact lit _ h
+    · exact lit _ h
+    · exact lit _ h
+    · split at h
+      · cases h
+      · split at h
+        · cases h
+        · rename_i newSize rest0 hdi
+          split at h
+          · cases h
+          · rename_i hle
+            split at h
+            · cases h
+            · rename_i t ht
+              simp only [Step.next.injEq] at h
+              obtain ⟨h1, h2, h3, h4⟩ := h
+              subst h1 h2 h3
+              obtain ⟨pre, hpre, hl, -⟩ := decodeInt_shape _ _ _ _ hdi
+              refine ⟨⟨pre, hpre, hl⟩, ⟨rfl, rfl, rfl⟩, fun hc => hc, fun hi => ?_⟩
+              obtain ⟨i1, i2⟩ := setMaxSize_preserves_inv _ _ _ hi ht
+              exact ⟨i1, Or.inr (by simp only [i2]; omega)⟩
+
+/-- P2 — a returning step: the table is untouched; `Ok` only on an empty buffer; a `NeedMore`
+    error leaves the whole representation in the buffer -/
+theorem step_stop_props (d : Decoder) (c : Bool) (buf : Bytes) (d' : Decoder)
+    (tl : Bytes) (res : Except DErr Unit) (h : step d c buf = .stop d' tl res) :
+    (d' = d ∨ d' = { d with seenField := true }) ∧
+    (res = .ok () → buf = [] ∧ tl = [] ∧ d' = d) ∧
+    (∀ e, res = .error e → e.isNeedMore = true → tl = buf) := by
+  have lit : ∀ index, stepLiteral d buf index = .stop d' tl res →
+      (d' = d ∨ d' = { d with seenField := true }) ∧
+      (res = .ok () → buf = [] ∧ tl = [] ∧ d' = d) ∧
+      (∀ e, res = .error e → e.isNeedMore = true → tl = buf) := by
+    intro index hl
+    obtain ⟨e, hk, hr, hd'⟩ := stepLiteral_stop_inv _ _ _ _ _ _ hl
+    subst hr
+    refine ⟨Or.inr hd', (fun hc => by cases hc), fun e' he hn => ?_⟩
+    cases he
+    exact decodeLiteral_needMore_tail _ _ _ _ _ hk hn
+  unfold step at h
+  cases buf with
+  | nil =>
+    simp only [Step.stop.injEq] at h
+    obtain ⟨h1, h2, h3⟩ := h
+    subst h1 h2 h3
+    exact ⟨Or.inl rfl, fun _ => ⟨rfl, rfl, rfl⟩, fun e he => by cases he⟩
+  | cons ty tl0 =>
+    simp only at h
+    have stopErr : ∀ (d0 : Decoder) (e : DErr), (d0 = d ∨ d0 = { d with seenField := true }) →
+        Step.stop d0 (ty :: tl0) (Except.error e) = Step.stop d' tl res →
+        (d' = d ∨ d' = { d with seenField := true }) ∧
+        (res = .ok () → ty :: tl0 = [] ∧ tl = [] ∧ d' = d) ∧
+        (∀ e, res = .error e → e.isNeedMore = true → tl = ty :: tl0) := by
+      intro d0 e hd0 he
+      simp only [Step.stop.injEq] at he
+      obtain ⟨h1, h2, h3⟩ := he
+      subst h1 h2 h3
+      exact ⟨hd0, (fun hc => by cases hc), fun _ _ _ => rfl⟩
+    split at h
+    · exact stopErr _ _ (Or.inl rfl) h
+    · split at h
+      · exact stopErr _ _ (Or.inr rfl) h
+      · split at h
+        · exact stopErr _ _ (Or.inr rfl) h
+        · cases h
+    · exact lit _ h
+    · exact lit _ h
+    · exact lit _ h
+    · split at h
+      · exact stopErr _ _ (Or.inl rfl) h
+      · split at h
+        · exact stopErr _ _ (Or.inl rfl) h
+        · split at h
+          · exact stopErr _ _ (Or.inl rfl) h
+          · split at h
+            · exact stopErr _ _ (Or.inl rfl) h
+            · cases h
+
+theorem step_stop_sameCfg (d : Decoder) (c : Bool) (buf : Bytes) (d' : Decoder)
+    (tl : Bytes) (res : Except DErr Unit) (h : step d c buf = .stop d' tl res) :
+    SameCfg d d' ∧ d'.table = d.table ∧ (c = !d.seenField → res ≠ .ok () → True) := by
+  rcases (step_stop_props _ _ _ _ _ _ h).1 with rfl | rfl
+  · exact ⟨⟨rfl, rfl, rfl⟩, rfl, fun _ _ => trivial⟩
+  · exact ⟨⟨rfl, rfl, rfl⟩, rfl, fun _ _ => trivial⟩
+
+/-- P3 — the errors a step returns are Rust errors: never the model's `fuel`, and never `panic`
+    as long as `size` is exact -/
+theorem step_stop_err (hHuff : HuffSpec) (d : Decoder) (c : Bool) (buf : Bytes) (d' : Decoder)
+    (tl : Bytes) (e : DErr) (hv : Bytes.Valid buf) (hs : Table.SizeOk d.table)
+    (h : step d c buf = .stop d' tl (.error e)) : e.isModelOnly = false := by
+  have lit : ∀ index, stepLiteral d buf index = .stop d' tl (.error e) → e.isModelOnly = false := by
+    intro index hl
+    obtain ⟨e', hk, hr, -⟩ := stepLiteral_stop_inv _ _ _ _ _ _ hl
+    cases hr
+    exact decodeLiteral_err hHuff _ _ _ _ _ hv hk
+  unfold step at h
+  cases buf with
+  | nil => cases h
+  | cons ty tl0 =>
+    simp only at h
+    split at h
+    · rename_i e' hr
+      simp only [Step.stop.injEq, Except.error.injEq] at h
+      rw [← h.2.2, Rep_load_err _ _ hr]; rfl
+    · split at h
+      · rename_i e' hdi
+        simp only [Step.stop.injEq, Except.error.injEq] at h
+        rw [← h.2.2]
+        rcases decodeInt_err _ _ _ (by decide) hdi with rfl | rfl <;> rfl
+      · split at h
+        · rename_i e' hg
+          simp only [Step.stop.injEq, Except.error.injEq] at h
+          rw [← h.2.2, Table.get_err _ _ _ hg]; rfl
+        · cases h
+    · exact lit _ h
+    · exact lit _ h
+    · exact lit _ h
+    · split at h
+      · simp only [Step.stop.injEq, Except.error.injEq] at h
+        rw [← h.2.2]; rfl
+      · split at h
+        · rename_i e' hdi
+          simp only [Step.stop.injEq, Except.error.injEq] at h
+          rw [← h.2.2]
+          rcases decodeInt_err _ _ _ (by decide) hdi with rfl | rfl <;> rfl
+        · split at h
+          · simp only [Step.stop.injEq, Except.error.injEq] at h
+            rw [← h.2.2]; rfl
+          · split at h
+            · rename_i hnone
+              exact absurd hnone (consolidate_ne_none _ _ hs)
+            · cases h
 
 end H2V.Lemmas.HpackDec
